@@ -65,6 +65,15 @@ def gen_cfg(rng, dt, L, kind=None, op=None):
         cfg["azimuths"] = np.sort(rng.uniform(0, 180, int(rng.integers(1, 6))))
     else:
         cfg["method"] = "diffuse_field"
+    # the azimuths of a sweep are usually whole degrees held in whatever np.arange / a JSON file / a loop produced: a share
+    # of the cases uses whole (or half) degrees and hands them over as another numeric type holding the same values
+    if kind in ("rotdpp", "azimuthal") and rng.random() < 0.3:
+        k = len(cfg["azimuths"])
+        cfg["azimuths"] = np.sort(rng.choice(np.arange(0, 180, 5.0), size=k, replace=False))
+        cfg["azimuths_dtype"] = gen.vector_dtype_form(rng, cfg["azimuths"])[1]
+    if kind == "single" and rng.random() < 0.3:
+        cfg["azimuth"] = float(rng.choice([0., 30., 45., 90., 135., 200., 12.5, -30., 400.]))
+        cfg["azimuth_type"] = gen.scalar_form(rng, cfg["azimuth"])[1]
     return cfg
 
 
@@ -82,14 +91,18 @@ def make_settings(cfg):
     if k == "freq":
         return hvsrpy.HvsrTraditionalProcessingSettings(method_to_combine_horizontals=cfg["method"], **common)
     if k == "single":
+        az = gen.scalar_form(None, cfg["azimuth"], cfg["azimuth_type"])[0] if cfg.get("azimuth_type") else cfg["azimuth"]
         return hvsrpy.HvsrTraditionalSingleAzimuthProcessingSettings(
-            method_to_combine_horizontals=cfg["method"], azimuth_in_degrees=cfg["azimuth"], **common)
+            method_to_combine_horizontals=cfg["method"], azimuth_in_degrees=az, **common)
+    azs = np.array(cfg["azimuths"], copy=True) if "azimuths" in cfg else None
+    if cfg.get("azimuths_dtype"):
+        azs = gen.vector_dtype_form(None, azs, cfg["azimuths_dtype"])[0]
     if k == "rotdpp":
         return hvsrpy.HvsrTraditionalRotDppProcessingSettings(
             ppth_percentile_for_rotdpp_computation=cfg["percentile"],
-            azimuths_in_degrees=np.array(cfg["azimuths"], copy=True), **common)
+            azimuths_in_degrees=azs, **common)
     if k == "azimuthal":
-        return hvsrpy.HvsrAzimuthalProcessingSettings(azimuths_in_degrees=np.array(cfg["azimuths"], copy=True), **common)
+        return hvsrpy.HvsrAzimuthalProcessingSettings(azimuths_in_degrees=azs, **common)
     return hvsrpy.HvsrDiffuseFieldProcessingSettings(**common)
 
 
